@@ -3,6 +3,7 @@
 package tor
 
 import (
+	"context"
 	"net/netip"
 
 	"github.com/jech/storrent/hash"
@@ -167,4 +168,25 @@ func H_C05_msg() {
 	} else {
 		vAssert(a <= bound, "ghost: allocation proportional to the message")
 	}
+}
+
+var vMeta2Names = [][]string{{"s0", "i0", "d0"}, {"s1", "i1", "d1"}}
+
+// H_C05_meta2: two metadata data messages in sequence (as events, through the real
+// tor.handleEvent) against an arbitrary assembly state - sequences matter here because a
+// rejected assembly is reset between the two.
+func H_C05_meta2() {
+	t, _ := vMetaTorrent()
+	t.Event = make(chan peer.TorEvent, 512)
+	t.Done = make(chan struct{})
+	p := peer.VNewPeer(&t.Pieces, t.Event)
+	peer.VSetInfo(p, nil)
+	t.peers = []*peer.Peer{p}
+	ctx := context.Background()
+	for s := 0; s < 2; s++ {
+		e := peer.TorMetaData{Peer: p, Size: vU32(vMeta2Names[s][0]), Index: vU32(vMeta2Names[s][1]), Data: vBytes(vMeta2Names[s][2], 16384+1)}
+		err := handleEvent(ctx, t, e) // a panic is the violation
+		vAssert(err == nil, "a metadata message never stops the torrent")
+	}
+	vReach("both-handled")
 }
